@@ -1257,10 +1257,74 @@ func r20NoLexicalNormalisation(c *core.Ctx, p *load.Program) {
 			}
 			switch callee.Pkg.Pkg.Path() + "." + callee.Name() {
 			case "path.Clean", "path/filepath.Clean", "strings.ToLower", "strings.ToUpper", "strings.TrimSpace", "strings.TrimSuffix", "strings.TrimRight", "strings.TrimLeft", "strings.Trim", "path/filepath.ToSlash":
-				bad = fname(fn) + " calls " + callee.Name() + " at " + p.Pos(cl.Pos())
+				// only where the normalised string is compared or asserted on (a subtest name or a log line built with
+				// TrimSuffix is no observation)
+				if reachesComparison(cl, 0, map[ssa.Value]bool{}) {
+					bad = fname(fn) + " calls " + callee.Name() + " at " + p.Pos(cl.Pos())
+				}
 			}
 		})
 	}
 	c.Check(bad == "", "R20.19", "fstest|observed-strings-compared-as-returned", "-", "no lexical normalisation of compared strings",
 		fmt.Sprintf("%s: a string the file system returned (an error's path) is normalised before it is compared, so a file system that answers \"./foo\", \"foo/\" or \"a//b\" where the reference answers \"foo\" is accepted", bad))
+}
+
+// reachesComparison: v flows (through phis, conversions, interface boxing, concatenation, cells, variadic slices) into an
+// == / != comparison, or into a call of an assertion (package internal/assert, an assert* method, reflect.DeepEqual,
+// strings.Compare/EqualFold, a testing.TB Error/Fatal).
+func reachesComparison(v ssa.Value, depth int, seen map[ssa.Value]bool) bool {
+	if v == nil || seen[v] || depth > 8 || v.Referrers() == nil {
+		return false
+	}
+	seen[v] = true
+	for _, r := range *v.Referrers() {
+		switch x := r.(type) {
+		case *ssa.BinOp:
+			if x.Op == token.EQL || x.Op == token.NEQ {
+				return true
+			}
+			if reachesComparison(x, depth+1, seen) {
+				return true
+			}
+		case *ssa.Phi, *ssa.MakeInterface, *ssa.ChangeType, *ssa.Convert, *ssa.ChangeInterface, *ssa.Slice:
+			if reachesComparison(x.(ssa.Value), depth+1, seen) {
+				return true
+			}
+		case *ssa.Store:
+			// a local cell or an element of a variadic argument slice: follow the loads of the cell / the slice
+			switch a := x.Addr.(type) {
+			case *ssa.Alloc:
+				if a.Referrers() != nil {
+					for _, rr := range *a.Referrers() {
+						if ld, ok := rr.(*ssa.UnOp); ok && reachesComparison(ld, depth+1, seen) {
+							return true
+						}
+					}
+				}
+			case *ssa.IndexAddr:
+				if reachesComparison(a.X, depth+1, seen) {
+					return true
+				}
+			}
+		case *ssa.Call:
+			callee := ssax.StaticCallee(x)
+			name := ""
+			pkg := ""
+			if callee != nil {
+				name = callee.Name()
+				if callee.Pkg != nil {
+					pkg = callee.Pkg.Pkg.Path()
+				}
+			} else if x.Call.IsInvoke() {
+				name = x.Call.Method.Name()
+			}
+			switch {
+			case strings.HasSuffix(pkg, "internal/assert"), strings.HasPrefix(strings.ToLower(name), "assert"), pkg == "reflect" && name == "DeepEqual",
+				pkg == "strings" && (name == "Compare" || name == "EqualFold"),
+				strings.HasPrefix(name, "Error") || strings.HasPrefix(name, "Fatal"):
+				return true
+			}
+		}
+	}
+	return false
 }
